@@ -68,6 +68,108 @@ CLAIMED.update({
     design='7 (C13)'),
 })
 
+CMD_TIE = ('Tie: the commander model (Starter + Stopper + strategies + process synthesis) runs in lock-step with the real Starter / Stopper '
+           'on generated configurations and event histories (every emitted start / stop request and forced state compared), constants regenerated '
+           'from the source; a Lean monitor written from the statement judges every request the IMPLEMENTATION emits.')
+CMD_TRUST = ('Trusted: Lean kernel, standard axioms, tools/extract.py, harness/cmdh.py, harness/simenv.py, Drv/Cmd.lean, Spec/Cmd.lean (monitor). ')
+CLAIMED.update({
+ 'C03': dict(
+    text='Machine-checked proofs (Lean 4) about the decision functions the Starter runs: the plan of an application start only holds strictly '
+         'positive sequences and every such process, the group picked up has the lowest planned sequence, ABORT / STOP leave nothing planned after '
+         'the failure of a required process (STOP arms the deferred stop) while CONTINUE changes nothing, and the completion table of a start '
+         'request (RUNNING / expected exit with wait_exit). ' + CMD_TIE,
+    note='Partial: the ordering clause over whole executions (no start while a lower sequence is in flight or unhandled; nothing after ABORT/STOP; '
+         'sequence 0 never started) is judged on the implementation by the Lean monitor and carried by the lock-step correspondence, not proved over '
+         'executions of the re-entrant commander; the application-level order is judged through in-flight requests only. One defect repaired '
+         '(85ee815: a time-out now applies the starting failure strategy). ' + CMD_TRUST,
+    technique='Lean 4 proofs on the commander decision functions + lock-step correspondence + Lean monitor on implementation traces',
+    design='7 (C03)'),
+ 'C04': dict(
+    text='Machine-checked proofs (Lean 4): for every world, strategy and pending-request map, the instance chosen for a process is seen RUNNING, '
+         'knows the program and has it enabled, is permitted by the identifiers rule, and its node stays at or below 100 with the requested load '
+         '(cap regenerated from the AST of is_loading_valid); possible_identifiers is exactly allowed-known-enabled; no eligible candidate => no '
+         'choice; the members of a node are counted once. ' + CMD_TIE,
+    note='Partial: that every EMITTED request comes from that choice (process_job glue, no duplicate request, no-resource => FATAL and nothing sent) '
+         'is carried by the correspondence and judged by the monitor with set-based loads and Starter-wide pending requests. Known finding: '
+         'overload-by-requests-of-other-jobs. Two defects repaired (08bf665 node members duplicated at re-handshake; 500ed30 re-entrant '
+         'Commander.next). SINGLE_INSTANCE / SINGLE_NODE distributions are not generated yet. ' + CMD_TRUST,
+    technique='Lean 4 proofs on the placement functions + lock-step correspondence + Lean monitor on implementation traces',
+    design='7 (C04)'),
+ 'C09': dict(
+    text='Machine-checked proofs (Lean 4): every planned stop command targets an instance where the process is listed running, belongs to the '
+         'application and to the group of its stop_sequence, no group is empty; the group picked up has the highest planned sequence; the completion / '
+         'give-up table of a stop request. ' + CMD_TIE,
+    note='Partial: the ordering over whole executions is judged on the implementation by the monitor (known finding: '
+         'higher-sequence-already-stopping-not-waited); the restart/shutdown clauses (order reaches the Master, exactly one Supervisor order per instance, '
+         'FINAL after the Stopper is idle) are covered by the cluster lock-step of C01/C02 (orders compared at every step) but have no theorem yet; the '
+         'delivery of the Master\'s last publication while its own Supervisor goes down is a thread race outside the model. ' + CMD_TRUST,
+    technique='Lean 4 proofs on the Stopper decision functions + lock-step correspondence + Lean monitor on implementation traces',
+    design='7 (C09)'),
+ 'C10': dict(
+    text='Machine-checked proofs (Lean 4) of the give-up decisions for ALL states, counters and startsecs/stopwaitsecs: a start request not acknowledged '
+         'is given up once the target tick counter exceeds the request counter by more than the tick margin, an acknowledged one after margin + '
+         'ceil(secs/5); the only state that can wait for ever is RUNNING with wait_exit; same for stops; the bound ceil(secs/5)+2 <= secs/5+3 ticks; '
+         'only BACKOFF re-arms; DEFAULT_TICK_TIMEOUT and the tick period are regenerated from the source. ' + CMD_TIE,
+    note='Partial: that every request in flight is actually submitted to those decisions at each periodic check is carried by the correspondence and '
+         'judged by the monitor (known finding: start-request-untracked - a job dropped by a re-entrant Commander.next leaves requests unfollowed); '
+         'loss of the target instance (on_instances_invalidation) is not generated at this level yet. ' + CMD_TRUST,
+    technique='Lean 4 proofs on the time-out decision functions + lock-step correspondence + Lean monitor on implementation traces',
+    design='7 (C10)'),
+ 'C14': dict(
+    text='Machine-checked proofs (Lean 4) for every world (several instances per node), candidate list, load and pending-request map: the choice is a '
+         'valid candidate; CONFIG takes the first valid one in declared order; LESS/MOST_LOADED leave no valid candidate with a strictly better '
+         '(instance load, node load) key, LESS/MOST_LOADED_NODE none with a strictly better (node load, instance load) key; LOCAL only the requesting '
+         'instance; a choice is made iff a valid candidate exists; pending requests raise both load figures. ' + CMD_TIE,
+    note='Partial: SINGLE_INSTANCE / SINGLE_NODE distributions are not modelled yet (clause judged by nothing: named here); the monitor judges '
+         'optimality relationally (ties free) with Starter-wide pending requests (known finding: not-optimal-by-requests-of-other-jobs). ' + CMD_TRUST,
+    technique='Lean 4 proofs on the strategy functions + lock-step correspondence + relational Lean monitor on implementation traces',
+    design='7 (C14)'),
+ 'C15': dict(
+    text='Machine-checked proofs (Lean 4) on a model of ApplicationStatus.update: the state loop equals the priority definition for every process list; '
+         'required-based major / minor failure as defined; formula evaluation is total and sound (major = not of the Boolean semantics) for EVERY formula '
+         'shape within the interpreter stack budget, any other construct / unresolved / non-matching or invalid pattern gives a major failure, the only '
+         'exception that can escape is RecursionError; the result depends only on displayed states, expected-exit and required flags. Tie: lock-step with '
+         'the real ApplicationStatus on generated process tables and formulas (grammar-directed + hostile AST shapes) with an audit-hook side-effect monitor.',
+    note='Partial: totality is refuted for deep nesting only (RecursionError / MemoryError: 3 known findings in a separate labelled stream); seven defects '
+         'repaired by 5f161cb. With a formula the minor failure is compared but not judged (statement silent). Trusted: CPython parser, re (leaf matching '
+         'supplied as data), the S-expression printer, harness/c15.py, Drv/C15.lean; regex termination is not covered.',
+    technique='Lean 4 proofs (structural induction over formulas and process lists) + lock-step correspondence + Lean judge',
+    design='7 (C15)'),
+ 'C17': dict(
+    text='Machine-checked proofs (Lean 4, decide over the whole table) on the guard structure of every public XML-RPC REGENERATED from rpcinterface.py '
+         'by AST on every run: the first guard is the state check whose allowed set equals the hand-written documented set, every effect is dominated '
+         'by all guards, fault codes as documented, a rejected call is a no-op, calls are served inside their documented states, end_sync needs USER, '
+         'restart/shutdown without a Master answer BAD_SUPVISORS_STATE. Tie: translator + the COMPLETE method x scenario x Master/non-Master x '
+         'parameter-class matrix on real instances brought to each state by real histories (exhaustive).',
+    note='Partial: two clauses refuted and kept as known findings (restart_application lacks the NOT_MANAGED check; start_args on a group namespec raises '
+         'AttributeError); three defects repaired (83a88a0, 3678d4d). That the real effects leave the real snapshot unchanged and the parameter-class '
+         'oracle are judged, not proved. Trusted: tools/extract_rpc.py conventions, harness/c17.py, Drv/C17.lean.',
+    technique='translator-generated guard table + Lean 4 decide proofs + exhaustive matrix on real instances',
+    design='7 (C17)'),
+ 'C18': dict(
+    text='Machine-checked proofs (Lean 4, 42 theorems) on a model of the rules parser and of the [supvisors] option converters: exact name beats '
+         'patterns, longest pattern, model chain bounded by LOOP_CHECK (cycles included), element supersedes model, every resolved value in its domain, '
+         'required needs a sequence, stop defaults to start, alias expansion in order, @ and # assignment, every option in range or default, synchro '
+         'clean-up, TIMEOUT forces CONTINUE; constants, bounds and comparison operators REGENERATED from the AST. Tie: translator + lock-step with the '
+         'real Parser (lxml+XSD path and ElementTree path) and SupvisorsOptions on generated documents and option dictionaries.',
+    note='Partial: identifiers-supersede is refuted for sign residues (known finding) and proved otherwise; 4 known findings (invalid regex escapes, sign '
+         'residue, # with empty reference, # outside reference); 3 defects repaired (7f9aea6, b925545). Trusted: Python re match lengths (data), XSD '
+         'validation by libxml2, ASCII numeric lexers re-implemented in Lean and compared on every case, harness/c18.py, tools/extract_c18.py.',
+    technique='Lean 4 proofs on a parser/option model + translator-generated constants + lock-step correspondence',
+    design='7 (C18)'),
+ 'C20': dict(
+    text='Machine-checked proofs (Lean 4) by induction over ARBITRARY sample streams (changing key sets, pid changes, stops, unknown instances, any '
+         'period / depth): every series <= depth, value series aligned with their time series, a point only when the period has elapsed and stored points '
+         'pairwise a period apart, CPU in [0,100] for non-decreasing counters and I/O rates >= 0 in exact arithmetic, stopped process dropped, pid change '
+         'resets; plus a rounding-robust bound for the repaired CPU expression. Tie: lock-step with the real compilers, numeric values compared as exact '
+         'rationals (Fraction(float)) within 2^-40.',
+    note='Partial: IEEE rounding is monitored on the implementation and bounded by an abstract monotone-rounding theorem, not verified bit-exactly; aligned / '
+         'period_gate_series assume a stable number of CPU entries per identifier (a shrinking core count raises IndexError: separate labelled stream, not '
+         'judged); bounded assumes depth > 0 (to_histo accepts 10..1500). One defect repaired (723bafe). Trusted: harness/c20.py, Drv/C20.lean.',
+    technique='Lean 4 invariant proofs by induction over sample streams + lock-step correspondence with exact-rational comparison',
+    design='7 (C20)'),
+})
+
 NOT_YET = {}
 
 def main():
